@@ -32,12 +32,15 @@ pub(crate) fn crypto_secretbox_detached_inplace(
     computed_mac.finalize(mac);
 }
 
-pub(crate) fn crypto_secretbox_open_detached_inplace(
-    data: &mut [u8],
+/// Verifies `mac` over `ciphertext` and, only if it matches, returns the
+/// cipher positioned at the start of the message key stream. Nothing is
+/// decrypted before the authenticator has been checked.
+pub(crate) fn crypto_secretbox_open_verify(
+    ciphertext: &[u8],
     mac: &Mac,
     nonce: &Nonce,
     key: &Key,
-) -> Result<(), Error> {
+) -> Result<XSalsa20, Error> {
     let mut cipher = XSalsa20::new(
         GenericArray::from_slice(key),
         GenericArray::from_slice(nonce),
@@ -49,14 +52,25 @@ pub(crate) fn crypto_secretbox_open_detached_inplace(
     let mut computed_mac = Poly1305::new(&mac_key);
     mac_key.zeroize();
 
-    computed_mac.update(data);
+    computed_mac.update(ciphertext);
     let computed_mac = computed_mac.finalize_to_array();
 
-    cipher.apply_keystream(data);
-
     if mac.ct_eq(&computed_mac).unwrap_u8() == 1 {
-        Ok(())
+        Ok(cipher)
     } else {
         Err(dryoc_error!("decryption error (authentication failure)"))
     }
+}
+
+pub(crate) fn crypto_secretbox_open_detached_inplace(
+    data: &mut [u8],
+    mac: &Mac,
+    nonce: &Nonce,
+    key: &Key,
+) -> Result<(), Error> {
+    let mut cipher = crypto_secretbox_open_verify(data, mac, nonce, key)?;
+
+    cipher.apply_keystream(data);
+
+    Ok(())
 }
